@@ -140,7 +140,7 @@ def render_names(root, rng, nfiles=6):
         out.append(("names-%d" % f, fn, picked))
     return out
 
-def render_special(root):
+def render_special(root, rng=None, ncases=6):
     """hand-written invocations for situations the seeded streams do not reach; returns [(label, package dirs, [files])]"""
     out = []
     # (1) two different packages with the same package name in ONE invocation; the second declares identifiers equal
@@ -217,4 +217,55 @@ var _ = kessoku.Inject[*App]("InitApp",
 	kessoku.Async(kessoku.Provide(NewErr)), kessoku.Provide(NewApp))
 ''')
     out.append(("types-named-like-hard-coded-locals", ["./hl/"], ["hl/k.go"]))
+    if rng is not None:
+        out += render_multi(root, rng, ncases)
+    return out
+
+def render_multi(root, rng, ncases):
+    """seeded: ONE invocation over the files of several packages that import the same packages; some of them declare a
+    package-level identifier equal to the imported package's name (and therefore import it under an alias), or
+    identifiers equal to names the allocator derives (settings0, svc, ...)"""
+    out = []
+    shared = {"settings": "Settings", "config": "Config", "store": "Store"}
+    for c in range(ncases):
+        base = "mu%d" % c
+        for pn, tn in shared.items():
+            d = os.path.join(root, base, "sh", pn)
+            os.makedirs(d, exist_ok=True)
+            open(os.path.join(d, "x.go"), "w").write("package %s\n\ntype %s struct{ N int }\n\nfunc New() *%s { return &%s{} }\n" % (pn, tn, tn, tn))
+        npk = rng.randint(2, 4)
+        files, pkgs = [], []
+        for i in range(npk):
+            d = os.path.join(root, base, "p%d" % i)
+            os.makedirs(d, exist_ok=True)
+            uses = [pn for pn in shared if rng.chance(0.6)] or ["settings"]
+            decls, imports, provs, params = [], [], [], []
+            for pn in uses:
+                tn = shared[pn]
+                alias = pn
+                style = rng.choice(["plain", "plain", "shadowed", "aliased"])
+                if style == "shadowed":
+                    # the package declares an identifier called like the imported package, so it has to alias the import
+                    decls.append(rng.choice(["type %s struct{}", "var %s = 1", "func %s() {}", "const %s = 2"]) % pn)
+                    alias = "app" + pn
+                elif style == "aliased":
+                    alias = pn[0] + "x"
+                imports.append('\t%s"e2e/%s/sh/%s"' % ("" if alias == pn else alias + " ", base, pn))
+                provs.append("kessoku.Provide(%s.New)" % alias)
+                params.append("a%d *%s.%s" % (len(params), alias, tn))
+            # identifiers equal to what the allocator would derive for its variables
+            for extra in ("settings0", "config0", "svc", "svc0", "store0"):
+                if rng.chance(0.25):
+                    decls.append("var %s = 0" % extra)
+            asy = rng.chance(0.5)
+            if asy:
+                provs = ["kessoku.Async(%s)" % p for p in provs]
+            src = "package p%d\n\nimport (\n%s\n\t\"github.com/mazrean/kessoku\"\n)\n\n%s\n\ntype Svc struct{ n int }\n\nfunc NewSvc(%s) *Svc { return &Svc{} }\n\nvar _ = kessoku.Inject[*Svc](\"Init\", %s, kessoku.Provide(NewSvc))\n" % (
+                i, "\n".join(imports), "\n".join(decls), ", ".join(params), ", ".join(provs))
+            open(os.path.join(d, "k.go"), "w").write(src)
+            files.append("%s/p%d/k.go" % (base, i))
+            pkgs.append("./%s/p%d/" % (base, i))
+        order = list(range(npk))
+        rng.shuffle(order)
+        out.append(("multi-package-invocation-%d" % c, pkgs, [files[j] for j in order]))
     return out
